@@ -85,7 +85,8 @@ def term_cases(t):
             out.extend(term_cases(o))
         return out
     if k == "call" and t[1] in ("bool::then", "bool::then_some") and len(t[2]) == 2:
-        return [("Some", bool_facts(t[2][0], True), t), ("None", bool_facts(t[2][0], False), t)]
+        some_v = ("agg", "std::option::Option::Some", (t[2][1],)) if t[1] == "bool::then_some" else t
+        return [("Some", bool_facts(t[2][0], True), some_v), ("None", bool_facts(t[2][0], False), t)]
     return [(True, bool_facts(t, True), t), (False, bool_facts(t, False), t), ("Some", [("is_some", unref(t), True)], t),
             ("None", [("is_some", unref(t), False)], t)]
 
